@@ -10,7 +10,10 @@ partial def loop (h : IO.FS.Stream) (out : IO.FS.Stream) (d : DState) : IO Unit 
     loop h out d
   else
     let (d', o) := dstep d l
-    out.putStrLn o
+    -- which error a refused call returns is specified nowhere: printed as "err" (the harness does
+    -- the same with the package's errors); err-io, err-eof and noroots stay distinct
+    let canon := fun (x : String) => if x == "err-ro" || x == "err-arg" || x == "err-nofile" || x == "err-name" then "err" else x
+    out.putStrLn ("|".intercalate ((o.splitOn "|").map canon))   -- `|` only separates the nested answer of `nvisit`
     loop h out d'
 
 def main : IO Unit := do
